@@ -240,9 +240,10 @@ func encodedStringSize(p unsafe.Pointer) int {
 
 func (t *tType) EncodedSize(base unsafe.Pointer) (int, error) {
 	sd := t.Sd
-	if t.T != 0 { // not from reflect.EncodedSize
-		// for field of a struct, value of a map, or elem of a list,
-		// it's a pointer to struct pointer, then we have to convert it to struct pointer
+	if t.IsPointer { // never from reflect.EncodedSize
+		// for field of a struct, value of a map, or elem of a list of pointer type,
+		// it's a pointer to struct pointer, then we have to convert it to struct pointer.
+		// a struct stored by value is already addressed by base.
 		base = *(*unsafe.Pointer)(base)
 	}
 	if base == nil {
